@@ -220,6 +220,11 @@ func init() {
 	for _, pid := range []string{"C06", "C09", "C10", "C13"} {
 		registry[pid] = CheckSpec{Property: pid, Harnesses: []HarnessSpec{svc}, Assumptions: svcAssume, Outside: svcOut}
 	}
+	c06 := registry["C06"]
+	c06.Harnesses = append([]HarnessSpec{{Pkg: qp, Func: "ZZ_C06_InlineTagFilters", Solver: "cvc5", Quick: tier(nil),
+		Bounds: "searches over two tags (both / either / with a port filter, plain or negated) whose definitions have 1..2 alternatives with symbolic bounds; for each tag some or no stream pending; the stream's stored match and pending bits symbolic"}}, c06.Harnesses...)
+	c06.Assumptions = append(c06.Assumptions, "query side: the meaning of a search while streams are pending = decided streams by their stored bit, pending streams by the tag's definition (InlineTagFilters); evaluated with the C03 condition evaluator")
+	registry["C06"] = c06
 
 	registry["C19"] = CheckSpec{Property: "C19",
 		Harnesses: []HarnessSpec{
